@@ -111,6 +111,9 @@ def run_case(case):
     kind = case["kind"]
     password = pattern(case.get("pwlen", 12), case.get("pwsalt", 0))
     engine_id = b"\x80\x00\x1f\x88" + pattern(case.get("eidlen", 12) - 4, 3)
+    if "eidzeros" in case:
+        # zero-padded engine id formats
+        engine_id = b"\x80\x00\x1f\x88\x05" + bytes(case["eidzeros"]) + b"\x2a"
     ctx = bytes(b"c" * case.get("ctxlen", 0))
     size = case.get("size", 5)
     value = ("str", pattern(size, 5))
@@ -182,6 +185,10 @@ def plan(tier):
         for L in range(5, 33):
             for op in ("get", "set"):
                 cases.append(dict(family="engine", kind=kind, eidlen=L, op=op))
+    for kind in KINDS:
+        for z in (0, 1, 8, 11, 12, 13, 20, 26):
+            for op in ("get", "set"):
+                cases.append(dict(family="engine-zeros", kind=kind, eidzeros=z, op=op))
     # context names shift the boundaries
     for kind in ("sha1-auth", "md5-priv", "sha1-block"):
         for cl in range(0, 41):
@@ -250,7 +257,7 @@ def replay(case):
 def meta(tier):
     return {
         "level": "model_checking",
-        "rule": "full sweeps against the reference RFC 3414 agent (its verdict is the oracle): password lengths %s; value lengths 0..300 for get/set%s so that message, scoped-PDU and PDU lengths cross 127/128 and 255/256; engine id lengths 5..32; context name lengths 0..40; every operation x user kind (MD5/SHA-1, with/without privacy, block-padding privacy, noAuthNoPriv); memoised key derivation with two passwords x two engine ids in both orders; a case = one operation on a fresh client incl. discovery; states = cases, transitions = exchanges"
+        "rule": "full sweeps against the reference RFC 3414 agent (its verdict is the oracle): password lengths %s; value lengths 0..300 for get/set%s so that message, scoped-PDU and PDU lengths cross 127/128 and 255/256; engine id lengths 5..32 and zero-padded engine ids; context name lengths 0..40; every operation x user kind (MD5/SHA-1, with/without privacy, block-padding privacy, noAuthNoPriv); memoised key derivation with two passwords x two engine ids in both orders; a case = one operation on a fresh client incl. discovery; states = cases, transitions = exchanges"
         % ("1..300" if tier == "quick" else "1..300 (and x every engine id length 5..32)", "/getnext/bulkget/walk" if tier == "quick" else "/getnext/bulkget/walk, 301..1200, 16383, 16384, 60000 for get/set"),
         "exhaustive": True,
         "bounds": {"cases": len(plan(tier))},
